@@ -186,6 +186,7 @@ func ReadMesh(in io.Reader) ([]ObjMesh, []string, error) {
 	meshNameToMaterial := make(map[string]*modeling.Material)
 
 	trisSenseLastMat := 0
+	var matInEffect *modeling.Material = nil
 
 	geoms := make([]ObjMesh, 0)
 	workingGeom := newObjMeshReading()
@@ -236,6 +237,7 @@ func ReadMesh(in io.Reader) ([]ObjMesh, []string, error) {
 				}
 				meshNameToMaterial[matToUse] = meshMat
 			}
+			matInEffect = meshMat
 
 			workingGeom.meshMats = append(workingGeom.meshMats, modeling.MeshMaterial{
 				PrimitiveCount: 0,
@@ -270,12 +272,25 @@ func ReadMesh(in io.Reader) ([]ObjMesh, []string, error) {
 			}
 
 			if !workingGeom.empty() {
+				if trisSenseLastMat > 0 && len(workingGeom.meshMats) > 0 {
+					workingGeom.meshMats[len(workingGeom.meshMats)-1].PrimitiveCount = trisSenseLastMat
+				}
+				trisSenseLastMat = 0
+
 				geoms = append(geoms, workingGeom.toMesh())
 				workingGeom = newObjMeshReading()
 			}
 			workingGeom.name = groupName
 
 		case "f":
+
+			// The material in effect carries over from the previous group
+			if len(workingGeom.meshMats) == 0 && matInEffect != nil {
+				workingGeom.meshMats = append(workingGeom.meshMats, modeling.MeshMaterial{
+					PrimitiveCount: 0,
+					Material:       matInEffect,
+				})
+			}
 
 			trisSenseLastMat++
 
